@@ -203,6 +203,14 @@ def harnesses(tier):
                               wall_s=3400, weight=3,
                               bounds=dict(steps=k, operations=[OPS[i] for i in ops], edit_modes=modes, override_modes=omodes,
                                           datasets=NDATA, initial_state=ini, first=OPS[f])))
+    # a single dataset that carries a group: a selection, then any 3 [4] further steps (every dataset can leave and come back)
+    for f in ops:
+        if OPS[f].startswith('do Apply'):
+            hs.append(Harness('k=%d init=3 edit=1 first=%s' % (k, OPS[f]), body,
+                              params=dict(k=k, first=f, initial=3, ops=ops, modes=modes, omodes=omodes, edit=1), max_paths=5000000,
+                              wall_s=3400, weight=3,
+                              bounds=dict(steps=k, operations=[OPS[i] for i in ops], edit_modes=modes, override_modes=omodes,
+                                          datasets=NDATA, initial_state='one dataset with one group', first=OPS[f])))
     # deeper undo/redo interleavings: two solver-chosen commands, then only undo / redo / one more command
     dos = [i for i in ops if OPS[i].startswith('do ')]
     later = [OPS.index('undo'), OPS.index('redo'), OPS.index('do ApplySubsetState')]
